@@ -117,7 +117,70 @@ fn out_class(n: usize) -> u32 {
 
 // ============================================================================================ C07
 
+/// Overrides that turn the seeded search into an enumeration of the small scope.
+#[derive(Default)]
+pub struct C07Plan {
+    pub coding: Option<crate::gen::Coding>,
+    pub sched: Option<Vec<usize>>,
+    pub out_fixed: Option<usize>,
+    pub stop: Option<bool>,
+}
+
+pub const C07_SMALL_CODINGS: u64 = (1 + 3 + 9 + 27) * 2 * 3 * 2;
+
+/// The k-th coding of the small scope: <= 3 chunks of sizes 1..3, extension yes/no, 0..2
+/// trailers, leading zeros yes/no.
+pub fn c07_small_coding(mut k: u64, seed: u64) -> crate::gen::Coding {
+    let zeros = k % 2;
+    k /= 2;
+    let trailers = (k % 3) as usize;
+    k /= 3;
+    let ext = k % 2 == 1;
+    k /= 2;
+    // k in 0..40: chunk count and sizes
+    let mut sizes: Vec<usize> = Vec::new();
+    let mut n = 0u32;
+    let mut block = 1u64;
+    while k >= block {
+        k -= block;
+        block *= 3;
+        n += 1;
+    }
+    for _ in 0..n {
+        sizes.push(1 + (k % 3) as usize);
+        k /= 3;
+    }
+    crate::gen::encode_chunked(&crate::gen::CodingOpts { sizes, upper: false, leading_zeros: zeros as usize * 2, ext, trailers, payload_seed: seed })
+}
+
 pub fn c07(ctx: &mut Ctx) -> R {
+    if ctx.sub == 3 {
+        // ---- enumerated small scope: coding x single cut (or trickle / one-shot) x output size x stop
+        let k = ctx.index / 4;
+        let coding = c07_small_coding(k % C07_SMALL_CODINGS, 7 + k % 5);
+        // cut position varies fastest (after the coding), then output size, then stop: a quick
+        // run already covers every (coding, cut) pair, a thorough run the whole product
+        let r = k / C07_SMALL_CODINGS;
+        let cl = coding.bytes.len() as u64;
+        let c = r % (cl + 2);
+        let r2 = r / (cl + 2);
+        let out = [0usize, 1, 2, 3, 4, 65_536][((r2 + c) % 6) as usize];
+        let stop = ((r2 / 6) + c + k) % 2 == 1;
+        let sched: Vec<usize> = if c == cl + 1 {
+            (1..=cl as usize).collect()
+        } else if c == 0 || c == cl {
+            vec![cl as usize]
+        } else {
+            vec![c as usize, cl as usize]
+        };
+        ctx.count("p:small_scope_enumerated");
+        return c07_with(ctx, C07Plan { coding: Some(coding), sched: Some(sched), out_fixed: Some(out), stop: Some(stop) });
+    }
+    c07_with(ctx, C07Plan::default())
+}
+
+pub fn c07_with(ctx: &mut Ctx, plan: C07Plan) -> R {
+    let enumerated = plan.coding.is_some();
     set_observed(false);
     let use_call = ctx.chance(1, 3);
     let method = *ctx.pick(&["GET", "GET", "DELETE", "OPTIONS"]);
@@ -129,12 +192,15 @@ pub fn c07(ctx: &mut Ctx) -> R {
     };
     set_observed(true);
 
-    let coding = gen_coding(ctx);
+    let coding = match &plan.coding {
+        Some(c) => c.clone(),
+        None => gen_coding(ctx),
+    };
     let cl = coding.bytes.len();
     let tail = next_message(ctx);
     let mut stream = coding.bytes.clone();
     stream.extend_from_slice(&tail);
-    let truncated = ctx.sub == 1;
+    let truncated = ctx.sub == 1 && !enumerated;
     let total_visible = if truncated {
         // the peer closes the connection mid-coding: input simply stops
         ctx.count("f:conn_close_mid_body");
@@ -157,14 +223,20 @@ pub fn c07(ctx: &mut Ctx) -> R {
         }
     }
     marks.push(cl);
-    let (sched, amode) = gen_arrival(ctx, total_visible.min(cl), &marks, 400);
+    let (sched, amode) = match &plan.sched {
+        Some(s) => (s.clone(), ArrMode::Structural),
+        None => gen_arrival(ctx, total_visible.min(cl), &marks, 400),
+    };
     let mut sched = sched;
     if !truncated {
         sched.push(stream.len());
     }
     let bmode = gen_buf_mode(ctx);
-    let mut stop = ctx.flip();
-    let toggle = ctx.chance(1, 5);
+    let mut stop = match plan.stop {
+        Some(v) => v,
+        None => ctx.flip(),
+    };
+    let toggle = !enumerated && ctx.chance(1, 5);
     rx.set_stop(stop);
     ctx.sample(|| format!("api={} chunked coding {} bytes ({} chunks {:?}, payload {}), next message {} bytes, arrival {:?} ({} cuts), buffers {:?}, boundary stop {}{}{}", if use_call { "Call" } else { "Flow" }, cl, coding.chunks.len(), coding.chunks.iter().map(|c| c.len).take(6).collect::<Vec<_>>(), coding.payload.len(), tail.len(), amode, sched.len(), bmode, stop, if toggle { " (toggled)" } else { "" }, if truncated { ", truncated by peer close" } else { "" }));
     match amode {
@@ -244,7 +316,10 @@ pub fn c07(ctx: &mut Ctx) -> R {
                 rx.set_stop(stop);
                 ctx.count("p:stop_toggled_mid_body");
             }
-            let out_len = gen_buf_len(ctx, bmode);
+            let out_len = match plan.out_fixed {
+                Some(n) => n,
+                None => gen_buf_len(ctx, bmode),
+            };
             let (c, p) = check_read(ctx, &mut rx, visible, out_len, stop, &mut consumed, &mut produced, &mut out)?;
             reads += 1;
             if rx.can_proceed() {
@@ -252,7 +327,7 @@ pub fn c07(ctx: &mut Ctx) -> R {
             }
             if c == 0 && p == 0 {
                 idle += 1;
-                if idle == 1 && ctx.chance(1, 4) {
+                if idle == 1 && !enumerated && ctx.chance(1, 4) {
                     ctx.count("f:stall_repoll");
                     continue; // re-poll the unchanged window once
                 }
@@ -261,7 +336,7 @@ pub fn c07(ctx: &mut Ctx) -> R {
             if reads > 200_000 {
                 fail!("C07.hang", "", "more than 200000 reads");
             }
-            if ctx.chance(1, 6) {
+            if !enumerated && ctx.chance(1, 6) {
                 break; // the caller goes back to the socket before draining
             }
         }
@@ -323,7 +398,7 @@ pub fn c08(ctx: &mut Ctx) -> R {
     set_observed(false);
     let close_delim = ctx.sub == 1;
     let use_call = ctx.chance(1, 3);
-    let method = *ctx.pick(&["GET", "GET", "DELETE", "OPTIONS"]);
+    let method = *ctx.pick(&["GET", "GET", "DELETE", "OPTIONS", "CONNECT", "TRACE"]);
     let n: u64 = if close_delim {
         match ctx.draw(4) {
             0 => 0,
@@ -345,16 +420,18 @@ pub fn c08(ctx: &mut Ctx) -> R {
     };
     let http10 = close_delim && ctx.flip();
     // statuses with a body in every class (a redirect with Content-Length has one too)
-    let status = *ctx.pick(&[200u16, 200, 201, 301, 302, 307, 404, 500, 999]);
+    let status = if method == "CONNECT" { *ctx.pick(&[404u16, 407, 500, 301, 302]) } else { *ctx.pick(&[200u16, 200, 201, 205, 301, 302, 307, 404, 500, 999]) };
+    // legal fields with an empty value may precede the framing field
+    let empty = *ctx.pick(&["", "", "X-Trace-Id:\r\n", "Server:   \r\n"]);
     let loc = if (300..400).contains(&status) { "Location: /moved\r\n" } else { "" };
     let head = if close_delim {
-        let st = if (300..400).contains(&status) { 200 } else { status };
+        let st = if (300..400).contains(&status) { if method == "CONNECT" { 404 } else { 200 } } else { status };
         format!("HTTP/1.{} {} OK\r\nX-A: b\r\n\r\n", if http10 { 0 } else { 1 }, st)
     } else if ctx.chance(1, 6) {
         // an HTTP/1.0 response cannot be chunked: the Content-Length governs
-        format!("HTTP/1.0 {} OK\r\n{}Transfer-Encoding: chunked\r\nContent-Length: {}\r\n\r\n", status, loc, n)
+        format!("HTTP/1.0 {} OK\r\n{}{}Transfer-Encoding: chunked\r\nContent-Length: {}\r\n\r\n", status, empty, loc, n)
     } else {
-        format!("HTTP/1.1 {} OK\r\n{}Content-Length: {}\r\n\r\n", status, loc, n)
+        format!("HTTP/1.1 {} OK\r\n{}{}Content-Length: {}{}\r\n\r\n", status, empty, loc, if ctx.chance(1, 8) { "0000000000000000000000" } else { "" }, n)
     };
     let mut rx = match reach_body_rx(use_call, method, head.as_bytes()) {
         Ok(v) => v,
